@@ -79,6 +79,8 @@ inductive Act where
   | post (k : Nat)                           -- loop->runNext(callable k)
   | cond (f c : Nat)                         -- a run-time kernel condition on f: c = 0 the peer end is closed, c = 1 the peer shuts down its write side
   | enableF (e : Nat)                        -- e->enable() while the kernel refuses the EPOLL_CTL_ADD it issues (ENOMEM/ENOSPC/EPERM)
+  | ctlL (en : Bool) (e : Nat)               -- e->enable() / e->disable() while the kernel refuses the EPOLL_CTL_MOD / _DEL it issues
+  | reborn (e : Nat)                         -- delete e; a NEW event object (same callback) that the allocator places at the SAME address
 deriving DecidableEq, Repr
 
 structure Ev where
@@ -339,6 +341,32 @@ and loop may disagree. -/
 def enableEvF (s : State) (e : Nat) : State × Bool :=
   (restoreOpen s (enableEv (refuseAdd s (s.evs e).fd) e).1, (enableEv (refuseAdd s (s.evs e).fd) e).2)
 
+/-- the fault injector is in use (ghost) -/
+def markFault (s : State) : State := { s with breach := true }
+
+/-- **`enable()` / `disable()` while the kernel refuses the `EPOLL_CTL_MOD` / `EPOLL_CTL_DEL` it issues** (round 5; ENOMEM, EINVAL, EIO
+injected by the interposer; an ADD issued by the same call is not refused - that is `enableF`).  `reloadEpoll` ignores the result,
+so the loop's own state moves exactly as in the plain call; what the KERNEL holds no longer follows: it keeps the mask it had
+(after a refused DEL even for a descriptor without record; a later ADD then fails with EEXIST and keeps the old mask too) until
+a later MOD / DEL succeeds or the descriptor is closed.  From here on `kern` is the table AS THE LOOP BELIEVES IT (the cached
+`ev.events`); the table the kernel really holds is kept by the trace acceptor (Driver/C03.lean `realAfter`, checked against the
+interposed `epoll_ctl` results in every `K` line), and the kernel's answers in such turns are `Step.loopLag`: ANY ready list.
+The ghost flag records the use of the injector. -/
+def ctlLEv (s : State) (en : Bool) (e : Nat) : State × Bool :=
+  (markFault (if en then enableEv s e else disableEv s e).1, (if en then enableEv s e else disableEv s e).2)
+
+/-- **heap-address ABA of event objects** (round 5).  The subscriber vectors (`fd_events`) and the snapshot copy the dispatch
+iterates over hold raw `FdEvent*`; the "still subscribed?" test of the dispatch (patch 03) compares addresses.  An event id of
+this model IS such an address: `reborn e` is `delete e` followed by `loop->newFdEvent()` + `setCallback(the same callback)`
+where the allocator hands out the block that was just freed (what glibc's malloc does for equal sizes; ASan's quarantine never
+does, so the harness makes it happen with a one-slot cache in its replaced `operator new`).  The new object is uninitialised
+(`fd_ = -1`, no events, persistent, disabled); whatever `initialize` / `enable` follow in the script act on the new object. -/
+def rebornEv (s : State) (e : Nat) : State × Bool :=
+  if !(s.evs e).alive then (s, false)
+  else
+    let s2 := (destroyEv s e).1
+    (s2.setEv e { s2.evs e with alive := true, mask := 0, oneshot := false }, true)
+
 def act (s : State) : Act → State × Bool
   | .init e f m o => initEv s e f m o
   | .enable e => enableEv s e
@@ -353,6 +381,8 @@ def act (s : State) : Act → State × Bool
   | .post _ => (s, true)
   | .cond f c => condFd s f c
   | .enableF e => enableEvF s e
+  | .reborn e => rebornEv s e
+  | .ctlL en e => ctlLEv s en e
 
 def runScript (s : State) : List Act → State
   | [] => s
@@ -475,11 +505,14 @@ inductive Step where
                                        -- one whole turn: wait → due timers → dispatch → deferred batch
   | loopBadf (trig : List Nat) (tms : List (List Act)) (fds : List Nat) (nx : List (List Act))
                                        -- the same turn when select failed with EBADF: wait → due timers → removeInvalidFds → deferred batch
+  | loopLag (tms : List (List Act)) (ready : List (Nat × Nat)) (nx : List (List Act))
+                                       -- a turn of the epoll engine while the kernel's table lags behind the loop's (a MOD / DEL was
+                                       -- refused): the kernel reports whatever its stale entries say - for the theorems: ANYTHING
   | defer (nx : List (List Act))       -- the rest of a deferred batch (tasks queued behind the one that made the API calls)
 deriving Repr
 
 /-- deleting an event from inside its own callback is outside the property (the code asserts it) -/
-def noSelfDestroy (e : Nat) (sc : List Act) : Bool := sc.all (fun a => a != .destroy e)
+def noSelfDestroy (e : Nat) (sc : List Act) : Bool := sc.all (fun a => a != .destroy e && a != .reborn e)
 
 /-- `SelectLoop::removeInvalidFds` (patch 05: over a copy of the subscriber vector): every event
 subscribed on a descriptor that is no longer open is disabled -/
@@ -503,6 +536,7 @@ def valid (s : State) : Step → Bool
   | .badfPass fds => badfTrigger s fds && fds.all (fun f => !s.isOpen f)
   | .loop be _ r _ => validReady be s r                 -- the kernel answers for the state at the wait
   | .loopBadf trig tms fds _ => badfTrigger s trig && fds.all (fun f => !(runScripts s tms).isOpen f)
+  | .loopLag _ r _ => decide (r.map (·.1)).Nodup          -- epoll_wait reports a descriptor once; nothing else is assumed
   | .defer _ => true
 
 def step (s : State) : Step → State
@@ -512,6 +546,7 @@ def step (s : State) : Step → State
   | .badfPass fds => removeInvalid s fds
   | .loop _ tms r nx => loopPass s tms r nx
   | .loopBadf _ tms fds nx => loopBadf s tms fds nx
+  | .loopLag tms r nx => loopPass s tms r nx
   | .defer nx => runScripts s nx
 
 def exec (s : State) : List Step → Option State
